@@ -4,10 +4,15 @@ import random
 import numpy as np
 
 from common import err_code
+import py2v_store
 
 CONFIG = {
-    "cone": ["Base/ListUtil.v", "Model/Store.v", "Proofs/StoreProofs.v", "Properties/C13.v"],
-    "trusted": ["Model/Store.v models ArrayStore row-wise (a row = one candidate id encoded redundantly into every field; "
+    "cone": ["Base/ListUtil.v", "Model/Store.v", "Proofs/StoreProofs.v", "Properties/C13.v", "Generated/StoreAddGen.v", "Refine/StoreAddRefine.v"],
+    "extra_property_files": ["Refine/StoreAddRefine.v"],
+    "trusted": ["harness/py2v_store.py: fail-closed extractor of the phase order of ArrayStore.add (count, transforms, empty return, length check, key "
+                "check, conversion of every field, occupancy, writes) into Generated/StoreAddGen.v on every run; Refine/StoreAddRefine.v proves it is the "
+                "order Model/Store.v implements and that no phase that can raise follows a phase that writes",
+                "Model/Store.v models ArrayStore row-wise (a row = one candidate id encoded redundantly into every field; "
                 "the harness decoder flags torn rows)"],
     "level_text": "Theorems in coq/Properties/C13.v quantify over every capacity (0 and 1 included), every history of add/clear/resize "
                   "and every transform chain of the Store model: invariant (len = #occupied, occupied_list duplicate-free and exact, "
@@ -548,6 +553,7 @@ def check(rep, tier, seed, driver):
     import json
     import os
     from common import CORPUS
+    py2v_store.report(rep)
     rng = random.Random(seed)
     n = 1500 if tier == "quick" else 20000
     rep.rule = ("random ArrayStore histories (add with arbitrary/repeated/unsorted indices and transform chains, malformed adds, "
